@@ -195,6 +195,11 @@ func TestReplaySanity(t *testing.T) {
 			t.Fatalf("INCONCLUSIVE: harness self-check: expired DHCPv6 lease survived the scan")
 		}
 	}
+	for _, pkg := range []string{"radius", "dhcpv6", "pppoe", "dhcp", "ztp", "ha", "nat"} {
+		if d := dictFor(pkg); len(d.small) == 0 || len(d.strs) == 0 {
+			t.Fatalf("INCONCLUSIVE: harness self-check: no dictionary harvested from %s/pkg/%s", repoRoot(), pkg)
+		}
+	}
 	for tn := range repoPackets {
 		if targets[tn] == nil {
 			t.Fatalf("INCONCLUSIVE: harness self-check: repoPackets names unknown target %q", tn)
